@@ -7,7 +7,7 @@
    helpers copy the count back) and the seeded mutant C09-m2 (arraySort swallowing the budget error) are about; the
    correspondence and the direct oracle exercise them on the real library. *)
 From Coq Require Import ZArith.
-From BS Require Import Model.Base Model.Num Model.Arith Model.ExprParser Model.Script Model.Interp Model.LibCore Model.LibAll Proofs.C09 Proofs.LibAll.
+From BS Require Import Model.Base Model.Num Model.Arith Model.ExprParser Model.Script Model.Interp Model.LibCore Model.LibAll Model.Run Proofs.C09 Proofs.LibAll Proofs.C09term Proofs.C09termLib.
 Local Open Scope Z_scope.
 
 (* EXACT (1): the limit is tested at the head of every statement, after counting it: with L statements started, statement
@@ -65,6 +65,166 @@ Theorem C09_premises_hold_for_combined_library : forall cfg, lib_monotone (libfu
 Proof. intros cfg. split; [exact (libfull_monotone cfg)|exact (libfull_lockstep cfg)]. Qed.
 Print Assumptions C09_premises_hold_for_combined_library.
 
-(* "no script runs forever": with a positive limit the counter bounds the number of statements that start
-   (C09_abort_exactly_at_limit + C09_every_started_statement_counts); that the FUEL of the model run then always suffices
-   (a measure over the remaining budget and the expression size) is NOT proved here - C09_terminates is the partial clause. *)
+(* ======================= "... so no script can run forever" =======================
+   FULL statement as designed (DESIGN.md, C09_terminates) - kept visible; it is NOT provable because it is FALSE:
+       forall cfg lib url_rel lint_lines, 0 < c_max cfg -> (premises on lib) ->
+       forall sc w, exists fuel, fst (execute_script cfg lib url_rel lint_lines fuel sc w) <> OFuel.
+   Refutation (machine-checked below, C09_example_deep_compare_answers_OFuel): `a = arrayNew() ; arrayPush(a, a) ; return a == a`
+   answers OFuel for EVERY fuel, with the modelled library and the empty initial world: relop (and systemCompare, mathMax/mathMin
+   as LFuel, and parse_script of an included text as RFuel) report the exhaustion of THEIR OWN fuel as the same outcome OFuel.
+
+   What is proved: the recursion of the interpreter never runs out.  The tower eval/call/exec is taken with its depth-0 answer
+   as a parameter `bot` (Proofs/C09term.v evalB/callB/execB, execute_script_bot: a copy of the model's tower that answers `bot`
+   where the model answers OFuel at fuel 0; with bot = OFuel it IS the model's tower, C09_bot_OFuel_is_the_model, by reflexivity).
+   Under a positive limit, for every program and initial world there is a fuel from which on the answer is the same for every
+   fuel AND every `bot`: the depth-0 case was never consulted, the run terminated.  (An endless loop answers `bot`, so it is
+   excluded; plain "the answer settles" would not exclude it.)  Includes are covered (any c_fetch).
+
+   PARTIAL in this respect only - premise lib_ranked: library functions carry ranks and a library function's answer depends
+   on its callback only at script functions, non-functions and library functions of LOWER rank.  The real library lets any
+   function value be passed, also e.g. arraySort(a, arraySort) or arraySort's compare function being arrayFind-like again of the
+   same rank (a callback-taking library function called back by a callback-taking library function): such statement-free
+   recursion through the library is cut by Python's RecursionError, not by the statement budget, and the model has no
+   outcome for it.  Premise lib_terminates is the expected one (handed callbacks that terminate, a library function
+   terminates).  Both hold for the modelled library (C09_termination_premises_hold_for_modelled_library). *)
+
+(* the premise lib_terminates, spelled out *)
+Theorem C09_lib_terminates_spelled : forall lib,
+  lib_terminates lib <->
+  (forall (J : Type) (c : Z) (cb : J -> nat -> caller),
+     (forall fv a w, c <= w_count w ->
+        exists r, (exists f0 : nat, forall j f, (f0 <= f)%nat -> cb j f fv a w = r) /\ w_count w <= w_count (snd r)) ->
+     forall name args w, c <= w_count w ->
+        exists r, (exists f0 : nat, forall j f, (f0 <= f)%nat -> lib (cb j f) name args w = r) /\ w_count w <= w_count (snd r)).
+Proof. intros lib. split; intros H; exact H. Qed.
+Print Assumptions C09_lib_terminates_spelled.
+
+(* the premise lib_ranked, spelled out *)
+Theorem C09_lib_ranked_spelled : forall lib rank,
+  lib_ranked lib rank <->
+  (forall name (cb cb' : caller),
+     (forall fv a w, match fv with VFun (FLib nm) => (rank nm < rank name)%nat | _ => True end -> cb fv a w = cb' fv a w) ->
+     forall args w, lib cb name args w = lib cb' name args w).
+Proof. intros lib rank. split; intros H; exact H. Qed.
+Print Assumptions C09_lib_ranked_spelled.
+
+Theorem C09_bot_OFuel_is_the_model : forall cfg lib url_rel lint_lines,
+  execute_script_bot cfg lib url_rel lint_lines OFuel = execute_script cfg lib url_rel lint_lines /\
+  evalB cfg lib url_rel lint_lines OFuel = eval cfg lib url_rel lint_lines /\
+  callB cfg lib url_rel lint_lines OFuel = call cfg lib url_rel lint_lines /\
+  execB cfg lib url_rel lint_lines OFuel = exec cfg lib url_rel lint_lines.
+Proof. intros. repeat split. Qed.
+Print Assumptions C09_bot_OFuel_is_the_model.
+
+(* THE CLAUSE *)
+Theorem C09_terminates_partial : forall cfg lib url_rel lint_lines,
+  0 < c_max cfg -> lib_terminates lib -> forall rank, lib_ranked lib rank ->
+  forall sc w, exists fuel r, forall bot fuel', (fuel <= fuel')%nat ->
+    execute_script_bot cfg lib url_rel lint_lines bot fuel' sc w = r.
+Proof. exact terminates. Qed.
+Print Assumptions C09_terminates_partial.
+
+(* ... the same for every statement list / expression / function call, in any state (locals, label cache, urlFn mode) *)
+Theorem C09_every_exec_terminates_partial : forall cfg lib url_rel lint_lines,
+  0 < c_max cfg -> lib_terminates lib -> forall rank, lib_ranked lib rank ->
+  forall code pc cache loc um w, exists fuel r, forall bot fuel', (fuel <= fuel')%nat ->
+    execB cfg lib url_rel lint_lines bot fuel' code pc cache loc um w = r.
+Proof. exact exec_terminates_bot. Qed.
+Print Assumptions C09_every_exec_terminates_partial.
+
+Theorem C09_every_eval_terminates_partial : forall cfg lib url_rel lint_lines,
+  0 < c_max cfg -> lib_terminates lib -> forall rank, lib_ranked lib rank ->
+  forall e loc bi um w, exists fuel r, forall bot fuel', (fuel <= fuel')%nat ->
+    evalB cfg lib url_rel lint_lines bot fuel' e loc bi um w = r.
+Proof. exact eval_terminates_bot. Qed.
+Print Assumptions C09_every_eval_terminates_partial.
+
+Theorem C09_every_call_terminates_partial : forall cfg lib url_rel lint_lines,
+  0 < c_max cfg -> lib_terminates lib -> forall rank, lib_ranked lib rank ->
+  forall fv a um w, exists fuel r, forall bot fuel', (fuel <= fuel')%nat ->
+    callB cfg lib url_rel lint_lines bot fuel' fv a um w = r.
+Proof. exact call_terminates_bot. Qed.
+Print Assumptions C09_every_call_terminates_partial.
+
+(* consequences for the model's own run (bot = OFuel): at enough fuel its answer is the answer of every other tower ... *)
+Theorem C09_answer_never_from_fuel_partial : forall cfg lib url_rel lint_lines,
+  0 < c_max cfg -> lib_terminates lib -> forall rank, lib_ranked lib rank ->
+  forall sc w, exists fuel, forall fuel', (fuel <= fuel')%nat -> forall bot,
+    execute_script_bot cfg lib url_rel lint_lines bot fuel' sc w = execute_script cfg lib url_rel lint_lines fuel' sc w.
+Proof. exact answer_never_from_fuel. Qed.
+Print Assumptions C09_answer_never_from_fuel_partial.
+
+(* ... it no longer depends on the fuel (the plain form, weaker) ... *)
+Theorem C09_settles_partial : forall cfg lib url_rel lint_lines,
+  0 < c_max cfg -> lib_terminates lib -> forall rank, lib_ranked lib rank ->
+  forall sc w, exists fuel, forall fuel', (fuel <= fuel')%nat ->
+    execute_script cfg lib url_rel lint_lines fuel' sc w = execute_script cfg lib url_rel lint_lines fuel sc w.
+Proof. exact settles. Qed.
+Print Assumptions C09_settles_partial.
+
+(* ... and the designed conclusion holds unless OFuel is the run's proper answer (given by every tower: a leaf's own fuel) *)
+Theorem C09_answers_or_declines_partial : forall cfg lib url_rel lint_lines,
+  0 < c_max cfg -> lib_terminates lib -> forall rank, lib_ranked lib rank ->
+  forall sc w,
+  (exists fuel, fst (execute_script cfg lib url_rel lint_lines fuel sc w) <> OFuel) \/
+  (exists fuel, forall bot fuel', (fuel <= fuel')%nat -> fst (execute_script_bot cfg lib url_rel lint_lines bot fuel' sc w) = OFuel).
+Proof. exact answers_or_declines. Qed.
+Print Assumptions C09_answers_or_declines_partial.
+
+(* non-vacuity: the modelled library functions satisfy both premises *)
+Theorem C09_termination_premises_hold_for_modelled_library : forall cfg,
+  lib_terminates (libcore cfg) /\ lib_ranked (libcore cfg) (fun _ => O).
+Proof. intros cfg. split; [exact (libcore_terminates cfg)|exact (libcore_ranked cfg)]. Qed.
+Print Assumptions C09_termination_premises_hold_for_modelled_library.
+
+(* ... and so does a library with a function that DOES call back (Proofs/C09termLib.v libcb = libcore + `__each(array, f)`,
+   which calls f(x) for each element, passes the first non-value outcome on and refuses itself as f; rank 1, all others 0) *)
+Theorem C09_termination_premises_hold_for_a_library_with_callbacks : forall cfg,
+  lib_terminates (libcb cfg) /\ lib_ranked (libcb cfg) rank_cb.
+Proof. intros cfg. split; [exact (libcb_terminates cfg)|exact (libcb_ranked cfg)]. Qed.
+Print Assumptions C09_termination_premises_hold_for_a_library_with_callbacks.
+
+(* under maxStatements = 10, with `__each` bound in the globals:
+     function g(x): systemLog('g') endfunction   return __each(arrayNew(1, 2), g)   -> logs g, g; 4 statements
+     function h(x): L: jump L endfunction        return __each(arrayNew(1, 2), h)   -> the budget error comes out of the library *)
+Example C09_example_callbacks_through_the_library : forall bot fuel,
+  let cfg := mkcfg 10 false true in
+  let w := upd_globals (world0 []) [(U "__each", VFun (FLib (U "__each")))] in
+  let arr := ECall (U "arrayNew") [ENum (NInt 1); ENum (NInt 2)] in
+  let r1 := execute_script_bot cfg (libcb cfg) no_url no_lint bot (20 + fuel)
+              [ SFunction (U "g") (Some [U "x"]) false false [SExpr None (ECall (U "systemLog") [EStr (U "g")])];
+                SReturn (Some (ECall (U "__each") [arr; EVar (U "g")])) ] w in
+  let r2 := execute_script_bot cfg (libcb cfg) no_url no_lint bot (40 + fuel)
+              [ SFunction (U "h") (Some [U "x"]) false false [SLabel (U "L"); SJump (U "L") None];
+                SReturn (Some (ECall (U "__each") [arr; EVar (U "h")])) ] w in
+  (fst r1 = OVal VNull /\ w_log (snd r1) = [U "g"; U "g"] /\ w_count (snd r1) = 4) /\
+  (fst r2 = ORt (msg_exceeded 10) /\ w_count (snd r2) = 11).
+Proof. exact each_examples. Qed.
+
+(* non-vacuity / the budget at work: `L: jump L` (while true) and `function f(): return f() endfunction  return f()` under
+   maxStatements = 10 stop with the budget error after 11 statement starts, for every fuel from a bound on and every bot *)
+Example C09_example_while_true_stops : forall bot fuel,
+  let r := execute_script_bot (mkcfg 10 false true) (libcore (mkcfg 10 false true)) no_url no_lint bot (12 + fuel)
+             [SLabel (U "L"); SJump (U "L") None] (world0 []) in
+  fst r = ORt (msg_exceeded 10) /\ w_count (snd r) = 11.
+Proof. exact loop_stops. Qed.
+
+Example C09_example_unbounded_recursion_stops : forall bot fuel,
+  let r := execute_script_bot (mkcfg 10 false true) (libcore (mkcfg 10 false true)) no_url no_lint bot (40 + fuel)
+             [ SFunction (U "f") (Some []) false false [SReturn (Some (ECall (U "f") []))];
+               SReturn (Some (ECall (U "f") [])) ] (world0 []) in
+  fst r = ORt (msg_exceeded 10) /\ w_count (snd r) = 11.
+Proof. exact rec_stops. Qed.
+
+(* the refutation of the designed statement: a = arrayNew() ; arrayPush(a, a) ; return a == a *)
+Example C09_example_deep_compare_answers_OFuel :
+  (forall fuel, fst (execute_script (mkcfg 100 false true) (libcore (mkcfg 100 false true)) no_url no_lint fuel
+     [ SExpr (Some (U "a")) (ECall (U "arrayNew") []);
+       SExpr None (ECall (U "arrayPush") [EVar (U "a"); EVar (U "a")]);
+       SReturn (Some (EBin (U "==") (EVar (U "a")) (EVar (U "a")))) ] (world0 [])) = OFuel) /\
+  (* ... and it is not the interpreter's fuel: every tower gives it *)
+  (forall bot fuel, fst (execute_script_bot (mkcfg 100 false true) (libcore (mkcfg 100 false true)) no_url no_lint bot (6 + fuel)
+     [ SExpr (Some (U "a")) (ECall (U "arrayNew") []);
+       SExpr None (ECall (U "arrayPush") [EVar (U "a"); EVar (U "a")]);
+       SReturn (Some (EBin (U "==") (EVar (U "a")) (EVar (U "a")))) ] (world0 [])) = OFuel).
+Proof. split; [exact cyc_always_fuel|exact cyc_not_from_tower]. Qed.
